@@ -573,11 +573,25 @@ def run(ctx):
                       stops=('myth_queue_push', 'myth_queue_pop', 'get_new_myth_thread_struct_desc', 'get_new_myth_thread_struct_stack',
                              'myth_init_ex_body', 'myth_make_context_empty', 'myth_make_context_voidcall') + lib.SPIN_STOPS, flavour=fl)
         rule4_custom_data(ctx, v4)
+        # "each record is released at most once": the reaping entry points pass at most one release per call (shared with C13.1)
+        from . import c13
+        v5 = ctx.view(NATIVE, roots=['myth_join_body', 'myth_tryjoin_body', 'myth_detach_body', 'myth_timedjoin_body'],
+                      stops=('myth_queue_push', 'myth_queue_pop', DESC_FREE, 'myth_get_current_env_noinline', 'myth_tryjoin_body',
+                             'myth_timespec_gt', 'hr_gettime', 'myth_yield_ex_body') + lib.SPIN_STOPS, flavour=fl)
+        c13.rule1_once(ctx, v5, rule='C12.7')
+        with ctx.shared({'C13.5': 'C12.8'}, floor=6,
+                        doc='who releases the record at exit (shared with C13.5): both exit callbacks decide on the detached flag of the '
+                            'thread that finished - detached: released there, joinable: kept for the joiner - and release at most once'):
+            c13.rule5_finisher(ctx, fl)
+        with ctx.shared({'C01.1': 'C12.8'}, keep=lambda k: 'detachstate' in k):
+            c01.rule1_attr(ctx, fl)
 
 
 SCHED = 'src/myth_sched_func.h'
 MISC = 'src/myth_misc_func.h'
 MUTANTS = [
+    {'name': 'detach of a finished thread releases the record twice (seed3 C12/m1)', 'expect': 'C12.7',
+     'edits': [(SCHED, "    free_myth_thread_struct_desc(myth_get_current_env(),th);\n    return 0;\n  }\n  //Obtain lock", "    free_myth_thread_struct_desc(myth_get_current_env(),th);\n  }\n  //Obtain lock")]},
     {'name': 'default stacks mapped with a short round-up (seed3 C12/m2)', 'expect': 'C12.4',
      'edits': [(SCHED, "    alloc_size += 0xFFF;\n    alloc_size &= ~0xFFF;\n    char * th_ptr = myth_mmap(NULL, alloc_size, PROT_READ|PROT_WRITE, ", "    alloc_size += 0xFF;\n    alloc_size &= ~0xFFF;\n    char * th_ptr = myth_mmap(NULL, alloc_size, PROT_READ|PROT_WRITE, ")]},
     {'name': 'flmalloc maps a fresh block when a recycled one is available (sweep M0310)', 'expect': 'C12.4',
